@@ -502,7 +502,22 @@ pub fn gen(prop: &str, tier: &str, seed: u64) -> Vec<String> {
                 let x2: Vec<Vec<u8>> = vec![b"".to_vec(), b"x".to_vec(), "é".as_bytes().to_vec()];
                 fam_cross("setext", win, &u8d, &x2, &mut out);
             }
+            // histories on ONE buffer (capacity, earlier truncations and pushes carry over), both encodings
             out.extend(histories(false, tier, seed ^ 5, true, false).into_iter().take(if t { 50_000 } else { 5_000 }));
+            out.extend(histories(true, tier, seed ^ 6, true, false).into_iter().take(if t { 50_000 } else { 5_000 }));
+            // repeated set_extension on the same buffer, growing and shrinking
+            for win in [false, true] {
+                let starts: Vec<&[u8]> = if win { vec![b"foo.txt", br"C:\a\b.tar.gz", br"a\.hidden", b"x"] } else { vec![b"foo.txt", b"/a/b.tar.gz", b"a/.hidden", b"x", b"a.rs/"] };
+                let xs = exts(tier);
+                for s in &starts {
+                    for x1 in &xs {
+                        for x2 in xs.iter().step_by(3) {
+                            out.push(format!("hist {} {} setext:{} setext:{} setext:{}", e(win), hex(s), hex(x1), hex(x2), hex(x1)));
+                            out.push(format!("hist {} {} push:{} setext:{} setext:{}", e(win), hex(b""), hex(s), hex(x2), hex(x1)));
+                        }
+                    }
+                }
+            }
         }
         "C14" => {
             let d = utf8_dom(tier, seed);
